@@ -583,6 +583,7 @@ func (c *Cholesky) SymRankOne(orig *Cholesky, alpha float64, x Vector) (ok bool)
 	}
 
 	if alpha == 0 {
+		c.cond = orig.cond
 		return true
 	}
 
